@@ -223,4 +223,39 @@ example : getUnfrozen s0 (frozenNumber s0) = some b1 ∧
     chainF9.m.tip = some 4 ∧ chainF9.r.epochNum 3 = some 21 ∧ chain.r.epochNum 3 = some 2 := by
   decide
 
+/-- a state with block 1 frozen and wiped, blocks 0 and 2 in the kv store -/
+def sI : FS :=
+  { v := ⟨{ Main.empty with index := fun n => if n ≤ 2 then some n else none },
+          { Recs.empty with bodies := fun id => if id ≤ 2 then some (Witness.mk id (id - 1) id) else none }⟩,
+    hdr := fun _ => true, body := fun id => id != 1, stored := [0, 2], frozen := [Witness.mk 1 0 1] }
+
+/-- the invariant is satisfiable by a state with a frozen, wiped block; `get_block` answers it from
+the freezer while its part accessors answer nothing -/
+example : Inv sI ∧ OnMain sI 1 (Witness.mk 1 0 1) ∧ getBlock sI 1 = .some (Witness.mk 1 0 1) ∧ getPart sI 1 = none := by
+  refine ⟨⟨?_, ?_, ?_, ?_, ?_⟩, ⟨by decide, by decide⟩, by decide, by decide⟩
+  · intro k fb hk
+    cases k with
+    | zero => simp [sI] at hk; subst hk; decide
+    | succ k => simp [sI] at hk
+  · intro id blk hm hc
+    obtain ⟨h1, h2⟩ := hm
+    simp only [sI] at h1 h2 hc ⊢
+    by_cases hid : id ≤ 2
+    · simp [hid] at h1; subst h1
+      simp [Witness.mk, frozenNumber] at hc ⊢
+      omega
+    · simp [hid] at h1
+  · intro id blk _; rfl
+  · intro id blk h1
+    simp only [sI] at h1
+    by_cases hid : id ≤ 2
+    · simp [hid] at h1; subst h1; rfl
+    · simp [hid] at h1
+  · intro n id blk h1 h2
+    simp only [sI] at h1 h2
+    by_cases hn : n ≤ 2
+    · simp [hn] at h1; subst h1
+      simp [hn] at h2; subst h2; rfl
+    · simp [hn] at h1
+
 end CkbVerif.C10
